@@ -221,3 +221,39 @@ func fieldStores(fn *ssa.Function, typ, field string) []*ssa.Store {
 	}
 	return out
 }
+
+// sourcesThroughWrappers expands sources that are results of module functions by the sources
+// of the value those functions return (so a thin helper around a call is transparent).
+func (p *Program) sourcesThroughWrappers(v ssa.Value, depth int) []vsource {
+	var out []vsource
+	for _, s := range sourcesOf(v) {
+		if s.Kind == "call" && depth < 4 && !strings.Contains(s.Desc, "secrets.") {
+			if call, ok := s.Val.(*ssa.Call); ok {
+				if f := call.Call.StaticCallee(); f != nil && IsModuleFunc(f) && len(f.Blocks) > 0 {
+					idx := 0
+					if i := strings.LastIndex(s.Desc, "#"); i >= 0 {
+						for _, ch := range s.Desc[i+1:] {
+							idx = idx*10 + int(ch-'0')
+						}
+					}
+					expanded := false
+					for _, r := range returnsOf(f) {
+						if idx < len(r.Results) {
+							if isNilConst(r.Results[idx]) {
+								expanded = true
+								continue // error paths return nil
+							}
+							out = append(out, p.sourcesThroughWrappers(r.Results[idx], depth+1)...)
+							expanded = true
+						}
+					}
+					if expanded {
+						continue
+					}
+				}
+			}
+		}
+		out = append(out, s)
+	}
+	return out
+}
